@@ -524,15 +524,127 @@ pub fn run(tier: &str) -> i32 {
         }
         rep.sub("all-boards", "all C(52,5) boards x three fixed tables (heads-up, three-way with two identical-rank hands, four-way all-suits T9s); boards containing a hole card must give None. distinct_nontrivial = (board, table) pairs without collision", n, nt, true, json!({}));
     }
-    let _ = thorough;
+    histories(&mut rep, &m, &all, thorough);
     rep.bound("boards x tables are structured families, not all boards x all hole-card assignments");
     rep.assume("true strength = M-rank class of the player's seven cards (self-checked reference ranking)");
     rep.finish()
 }
 
+type Deal = ([u8; 5], Vec<(u8, u8)>);
+
+/// run a history of calls on ONE fresh OS thread (each deal `times` in a row); every call is checked like a single
+/// call; returns (item, repetition, discrepancy) of the first call whose result depends on what went before
+fn run_history(m: &MRank, all: &[Card; 52], hist: &[(Deal, usize)]) -> Option<(usize, usize, Value)> {
+    std::thread::scope(|s| {
+        s.spawn(|| {
+            for (i, (deal, times)) in hist.iter().enumerate() {
+                for r in 0..*times {
+                    if let Some(b) = check_one(m, all, &deal.0, &deal.1, 0.5) {
+                        return Some((i, r, b));
+                    }
+                }
+            }
+            None
+        })
+        .join()
+        .unwrap_or_else(|_| Some((0, 0, json!({"problem": "the history thread died"}))))
+    })
+}
+
+fn history_json(hist: &[(Deal, usize)]) -> Value {
+    json!(hist.iter().map(|(d, t)| json!({"board": d.0.to_vec(), "holes": d.1.iter().map(|(a, b)| vec![*a, *b]).collect::<Vec<_>>(), "times": t})).collect::<Vec<_>>())
+}
+
+fn history_text(hist: &[(Deal, usize)]) -> String {
+    hist.iter().map(|(d, t)| format!("{} [{}] x{}", cards_text(&d.0), d.1.iter().map(|(a, b)| format!("{}{}", card_text(*a), card_text(*b))).collect::<Vec<_>>().join(","), t)).collect::<Vec<_>>().join(" ; ")
+}
+
+/// Showdown::new is a function of its arguments: (1) every sequence of three calls over 24 deals (three boards x eight
+/// seatings, some of which are refused because a hole card lies on the board), on one thread, each call checked
+/// like a single call; (2) long runs: a deal won by seat s, then 66,000 repetitions of a deal in which seat s
+/// loses (more calls than a 16-bit counter, stamp or epoch can tell apart), for every seat of a full table
+fn histories(rep: &mut Report, m: &MRank, all: &[Card; 52], thorough: bool) {
+    let h = |t: &str| (c(&t[0..2]), c(&t[2..4]));
+    // (1) all call sequences of length 3
+    let boards = [b5("QsJsTs4d5c"), b5("2h7c8s9h3d"), b5("AdKd7h7s2c")];
+    let seatings: Vec<Vec<(u8, u8)>> = vec![
+        vec![h("AsKs"), h("QdQc")],
+        vec![h("QdQc"), h("AsKs")],
+        vec![h("2h2d"), h("AsKs")],
+        vec![h("AsKs"), h("2h2d")],
+        vec![h("Ts9s"), h("AsKs")],
+        vec![h("AsKs"), h("7s6s")],
+        vec![h("QdQc"), h("2h2d"), h("AsKs")],
+        vec![h("AsKs"), h("Ts9s"), h("QdQc")],
+    ];
+    let mut deals: Vec<Deal> = vec![];
+    for b in &boards {
+        for st in &seatings {
+            deals.push((*b, st.clone()));
+        }
+    }
+    let nd = deals.len();
+    let outs = par_map(nd, |i| {
+        let mut bad = vec![];
+        for j in 0..nd {
+            for k in 0..nd {
+                let hist = vec![(deals[i].clone(), 1usize), (deals[j].clone(), 1), (deals[k].clone(), 1)];
+                if let Some((item, _, b)) = run_history(m, all, &hist) {
+                    if bad.len() < 2 {
+                        bad.push((hist, item, b));
+                    }
+                }
+            }
+        }
+        bad
+    });
+    for bad in outs {
+        for (hist, item, b) in bad {
+            rep.violation(Violation { key: format!("history={} (call {} differs)", history_text(&hist), item + 1), sub: "call-histories".into(), case: json!({"history": history_json(&hist)}), expected: json!("every call gives what the same call gives alone"), observed: b });
+        }
+    }
+    let refused = deals.iter().filter(|d| d.1.iter().any(|(a, b)| d.0.contains(a) || d.0.contains(b))).count();
+    rep.machine(nd as u64, (nd * nd * nd * 3) as u64, (nd * nd * nd) as u64);
+    rep.sub("call-histories", "ALL sequences of three calls over 24 deals (three boards x eight seatings of two or three players that share hole-card pairs across boards; some deals are refused because a hole card lies on the board), each sequence on one fresh thread, every call checked like a single call; distinct_nontrivial = deals in the alphabet that are refused", (nd * nd * nd) as u64, refused as u64, true, json!({"deals": nd}));
+
+    // (2) long runs on a full table
+    let board = b5("KsQd7h4c2s");
+    let hands: Vec<(u8, u8)> = ["AsAh", "KhJh", "QhJd", "7d7c", "4d4h", "2d2h", "AdTc", "Jc9c", "Ts9d", "8s6s"].iter().map(|t| h(t)).collect();
+    let n = hands.len();
+    let best = 3usize; // the set of sevens
+    let rot = |seat_of_best: usize| -> Vec<(u8, u8)> { (0..n).map(|i| hands[(i + n + best - seat_of_best) % n]).collect() };
+    let reps = if thorough { 140_000usize } else { 66_000 };
+    let mut jobs: Vec<Vec<(Deal, usize)>> = vec![];
+    for s in 0..n {
+        for shift in [1usize, 5] {
+            jobs.push(vec![((board, rot(s)), 1), ((board, rot((s + shift) % n)), reps)]);
+        }
+        // seat s wins, then is absent for a long time (heads-up deals), then sits at the full table again
+        jobs.push(vec![((board, rot(s)), 1), ((board, vec![hands[0], hands[1]]), reps), ((board, rot((s + 1) % n)), 3)]);
+    }
+    let outs = par_map(jobs.len(), |i| run_history(m, all, &jobs[i]));
+    let mut calls = 0u64;
+    for (i, o) in outs.into_iter().enumerate() {
+        calls += jobs[i].iter().map(|x| x.1 as u64).sum::<u64>();
+        if let Some((item, r, b)) = o {
+            rep.violation(Violation { key: format!("history={} (repetition {} of item {} differs)", history_text(&jobs[i]), r + 1, item + 1), sub: "long-histories".into(), case: json!({"history": history_json(&jobs[i])}), expected: json!("every call gives what the same call gives alone, however many calls went before on the thread"), observed: b });
+        }
+    }
+    rep.sub("long-histories", &format!("a full table of ten: for every seat s, a deal that s wins followed by {} repetitions (more than 2^16) of a deal that s loses (the winner one or five seats further), and by as many heads-up deals without s and then the full table again; one thread per history, every call checked", reps), calls, jobs.len() as u64, false, json!({"histories": jobs.len(), "calls": calls}));
+}
+
 pub fn replay(case: &Value) -> Value {
     let m = MRank::build();
     let all = all_cards();
+    if let Some(hs) = case.get("history").and_then(|x| x.as_array()) {
+        let hist: Vec<(Deal, usize)> = hs.iter().map(|d| {
+            let b: Vec<u8> = d["board"].as_array().unwrap().iter().map(|x| x.as_u64().unwrap() as u8).collect();
+            let holes: Vec<(u8, u8)> = d["holes"].as_array().unwrap().iter().map(|h| (h[0].as_u64().unwrap() as u8, h[1].as_u64().unwrap() as u8)).collect();
+            (([b[0], b[1], b[2], b[3], b[4]], holes), d["times"].as_u64().unwrap_or(1) as usize)
+        }).collect();
+        let r = run_history(&m, &all, &hist);
+        return json!({"history": history_text(&hist), "first_call_that_differs": r.map(|(i, k, b)| json!({"item": i + 1, "repetition": k + 1, "discrepancy": b}))});
+    }
     let b: Vec<u8> = case["board"].as_array().unwrap().iter().map(|x| x.as_u64().unwrap() as u8).collect();
     let board = [b[0], b[1], b[2], b[3], b[4]];
     let holes: Vec<(u8, u8)> = case["holes"].as_array().unwrap().iter().map(|h| (h[0].as_u64().unwrap() as u8, h[1].as_u64().unwrap() as u8)).collect();
